@@ -26,12 +26,12 @@ type waiter struct {
 }
 
 type Scheduler struct {
-	mu      sync.Mutex
-	names   map[uint64]string  // goroutine id -> logical name
-	parked  map[string]*waiter // goroutines blocked in Yield
-	done    map[string]bool
-	events  chan struct{} // something changed (park / finish)
-	Log     []Op
+	mu     sync.Mutex
+	names  map[uint64]string  // goroutine id -> logical name
+	parked map[string]*waiter // goroutines blocked in Yield
+	done   map[string]bool
+	events chan struct{} // something changed (park / finish)
+	Log    []Op
 }
 
 var (
